@@ -79,7 +79,7 @@ Core == {Ln(1, 1), Ln(1, 0), Ln(0, 1), Ln(0, 0), Ln(-1, 0), Mv(1, 0)}
 AllCore(cs) == cs[1] = Mv(1, 1) /\ \A i \in 2..Len(cs) : cs[i] \in Core
 
 (* ---- run-structured long programs (cross the 48 operand boundary) ------------------- *)
-RunKinds == {"rl", "hv", "hh", "rr", "hvc", "hhc", "lc", "cl"}
+RunKinds == {"rl", "hv", "hh", "rr", "hvc", "hhc", "lc", "cl", "lch"}
 Unit(u, i, k) ==
   CASE u = "rl"  -> Ln(1, IF i % 2 = 1 THEN 1 ELSE -1)
     [] u = "hv"  -> IF i % 2 = 1 THEN Ln(1, 0) ELSE Ln(0, 1)
@@ -89,6 +89,8 @@ Unit(u, i, k) ==
     [] u = "hhc" -> Cv(1, 0, 1, -1, 2, 0)
     [] u = "lc"  -> IF i = k THEN Cv(1, 1, 1, -1, 2, -1) ELSE Ln(1, 1)
     [] u = "cl"  -> IF i = k THEN Ln(1, 1) ELSE Cv(1, 1, 1, -1, 2, -1)
+    \* lines, a general curve, then an h/v curve that cannot be merged with it (4 operands after 6)
+    [] u = "lch" -> IF i = k THEN Cv(1, 0, 1, -1, 0, 2) ELSE IF i = k - 1 THEN Cv(1, 1, 1, -1, 2, -1) ELSE Ln(1, 1)
 
 (* ---- the two programs of a state -------------------------------------------------- *)
 MaskBytes(h) == M((HdrHints[h] + 7) \div 8)
